@@ -272,6 +272,19 @@ static struct aws_allocator s_book = {
 struct aws_allocator *verif_mt_default_allocator(void) {
     return &s_book;
 }
+/* fault injection for the tracer's timestamp read: the next s_clock_fail reads report an error (the value is
+ * still delivered, so that the order of a later dump does not depend on the fault) */
+#include <aws/common/clock.h>
+static long s_clock_fail, s_clock_fired;
+int verif_mt_clock_ticks(uint64_t *timestamp) {
+    int rc = aws_high_res_clock_get_ticks(timestamp);
+    if (rc == AWS_OP_SUCCESS && __atomic_load_n(&s_clock_fail, __ATOMIC_SEQ_CST) > 0) {
+        __atomic_fetch_sub(&s_clock_fail, 1, __ATOMIC_SEQ_CST);
+        __atomic_fetch_add(&s_clock_fired, 1, __ATOMIC_SEQ_CST);
+        return aws_raise_error(AWS_ERROR_CLOCK_FAILURE);
+    }
+    return rc;
+}
 void verif_mt_foreign_block(void *p) {
     if (p) {
         __atomic_fetch_add(&s_book_live, 1, __ATOMIC_SEQ_CST);
@@ -818,6 +831,7 @@ static int s_interpreter(void) {
         if (!strcmp(t[0], "case")) {
             s_drop_tracer(false);
             s_book_live = 0;
+            s_clock_fail = 0;
             hc_case_begin(t[1]);
         } else if (!strcmp(t[0], "new") && (n == 3 || n == 4 || (n == 5 && !strcmp(t[4], "nobt")))) {
             int lvl = !strcmp(t[1], "none") ? 0 : !strcmp(t[1], "bytes") ? 1 : !strcmp(t[1], "stacks") ? 2 : -1;
@@ -855,6 +869,8 @@ static int s_interpreter(void) {
             s_eff_frames = s_eff_frames ? s_eff_frames : 8;
             s_have_inj = false;
             s_emit_stat();
+        } else if (!strcmp(t[0], "clock_fail") && n == 2 && s_is_num(t[1])) {
+            s_clock_fail = (long)hc_parse_size(t[1]); /* the next k timestamp reads of the tracer fail */
         } else if (!strcmp(t[0], "depth") && n == 2) {
             s_depth = (size_t)atol(t[1]);
             if (s_depth > 400) {
@@ -976,6 +992,9 @@ static void *s_worker(void *arg) {
     struct worker *w = arg;
     for (size_t i = 0; i < w->ops; ++i) {
         uint64_t r = s_rnd(w) % 100;
+        if (s_rnd(w) % 16 == 0) {
+            __atomic_store_n(&s_clock_fail, 1, __ATOMIC_SEQ_CST); /* somebody's next timestamp read fails */
+        }
         if (w->nlive == 0 || (r < 35 && w->nlive < LMAX)) {
             size_t sz = s_rsize(w);
             uint8_t *p;
@@ -1110,12 +1129,13 @@ static int s_threads(int argc, char **argv) {
     struct aws_allocator *w = aws_mem_tracer_destroy(s_tr);
     s_tr = NULL;
     printf(
-        "P destroy wrapped=%s bookkeeping=%ld parent_after=%ld keeps=%ld moves=%ld\n",
+        "P destroy wrapped=%s bookkeeping=%ld parent_after=%ld keeps=%ld moves=%ld clock_faults=%ld\n",
         w == s_parent ? "ok" : "BAD",
         s_book_live,
         s_par_live,
         s_par_keeps,
-        s_par_moves);
+        s_par_moves,
+        s_clock_fired);
     return 0;
 }
 
